@@ -30,27 +30,27 @@ const (
 )
 
 type c06Sess struct {
-	sid      string
-	key      []byte
-	user     string
-	authed   bool
-	exists   bool
-	exp      int // virtual expiry
-	inval    bool
-	swept    bool
+	sid    string
+	key    []byte
+	user   string
+	authed bool
+	exists bool
+	exp    int // virtual expiry
+	inval  bool
+	swept  bool
 }
 
 type c06World struct {
-	now        int
-	K, L, U    c06Sess
-	cliCache   *security.SessionCache
-	cliCacheL  *security.SessionCache
-	cliHasK    bool
-	res        *vlib.Result
-	hist       string
-	replayRec  []byte // recorded client->server bytes of a legitimate resumed connection
-	replayNR   []byte // same for a resumption whose request asked for no reply
-	cliCacheU  *security.SessionCache
+	now       int
+	K, L, U   c06Sess
+	cliCache  *security.SessionCache
+	cliCacheL *security.SessionCache
+	cliHasK   bool
+	res       *vlib.Result
+	hist      string
+	replayRec []byte // recorded client->server bytes of a legitimate resumed connection
+	replayNR  []byte // same for a resumption whose request asked for no reply
+	cliCacheU *security.SessionCache
 }
 
 func (w *c06World) viol(key, f string, a ...any) {
@@ -59,8 +59,15 @@ func (w *c06World) viol(key, f string, a ...any) {
 
 func (s *c06Sess) live(now int) bool { return s.exists && !s.inval && !s.swept && now <= s.exp }
 
+// c06SrvCache: nil = the servers use the package-global cache; non-nil = every
+// server of the world is configured with this cache of its own (handshake
+// sessions still land in the global one, resumption consults both). The check
+// runs single-threaded (Workers: 1), one world at a time.
+var c06SrvCache *security.SessionCache
+
 func c06ServerCfg(cipher security.CryptoMethod, enc security.SecurityLevel) *security.SecurityConfig {
 	c := baseCfg(security.SecurityRequired, enc, []security.AuthMethod{mCTB}, []security.CryptoMethod{cipher}, true)
+	c.SessionCache = c06SrvCache
 	c.SessionDuration, c.SessionLease = c06Duration, c06Lease
 	return c
 }
@@ -69,6 +76,7 @@ func (w *c06World) establishU() bool {
 	cc := baseCfg(security.SecurityNever, security.SecurityNever, nil, nil, false)
 	sc := baseCfg(security.SecurityNever, security.SecurityNever, nil, nil, true)
 	sc.SessionDuration, sc.SessionLease = c06Duration, c06Lease
+	sc.SessionCache = c06SrvCache
 	cc.SessionCache, cc.Command = w.cliCacheU, 5
 	r := hsRun(hsOpts{ClientCfg: cc, ServerCfg: sc, App: true})
 	if r.C.Err != nil || r.S.Err != nil || r.S.Neg.Authentication || len(r.S.Neg.GetSharedSecret()) != 0 {
@@ -117,7 +125,10 @@ func (w *c06World) establish(keyed bool) bool {
 // expiration moved back by d seconds (public API only).
 func (w *c06World) advance(d int) {
 	w.now += d
-	for _, c := range []*security.SessionCache{security.GetSessionCache(), w.cliCache, w.cliCacheL, w.cliCacheU} {
+	for _, c := range []*security.SessionCache{security.GetSessionCache(), w.cliCache, w.cliCacheL, w.cliCacheU, c06SrvCache} {
+		if c == nil {
+			continue
+		}
 		for _, e := range c.Snapshot() {
 			if e.Expiration().IsZero() {
 				continue
@@ -136,14 +147,15 @@ type c06Req struct {
 	addr    string
 	label   string
 	raw     []byte // verbatim replay bytes (instead of a scripted request)
+	strict  bool   // probe the key-less session U at the authentication-REQUIRED server
 }
 
 type c06Obs struct {
-	replyCode   string
-	gotReply    bool
-	appFromSrv  []byte
-	appProt     bool
-	srvFrames   [][]byte
+	replyCode  string
+	gotReply   bool
+	appFromSrv []byte
+	appProt    bool
+	srvFrames  [][]byte
 }
 
 func c06Requester(q c06Req, o *c06Obs) func(*netsim.End) error {
@@ -214,6 +226,13 @@ func (w *c06World) probe(q c06Req, target *c06Sess) (clientWire []byte) {
 	w.res.Transitions++
 	o := &c06Obs{}
 	sc := c06ServerCfg(security.CryptoAES, security.SecurityOptional)
+	if target == &w.U && !q.strict {
+		// the unauthenticated plaintext session is probed at a server with the policy
+		// that created it (an authentication-REQUIRED server refuses it on policy alone)
+		sc = baseCfg(security.SecurityNever, security.SecurityNever, nil, nil, true)
+		sc.SessionDuration, sc.SessionLease = c06Duration, c06Lease
+		sc.SessionCache = c06SrvCache
+	}
 	addr := q.addr
 	r := hsRun(hsOpts{ServerCfg: sc, ClientScript: c06Requester(q, o), App: true, ClientAddr: addr})
 	resumed := r.S.Err == nil
@@ -341,6 +360,7 @@ func (w *c06World) probes(full bool) {
 			}
 			if w.U.exists {
 				w.probe(c06Req{sid: w.U.sid, keyKind: "none", reply: reply, addr: addr, label: "U-idonly/" + tag}, &w.U)
+				w.probe(c06Req{sid: w.U.sid, keyKind: "none", reply: reply, addr: addr, label: "U-idonly-strict-server/" + tag, strict: true}, &w.U)
 			}
 			w.probe(c06Req{sid: "no-such-session:1:2:3", keyKind: "none", reply: reply, addr: addr, label: "unknown/" + tag}, nil)
 		}
@@ -478,6 +498,9 @@ func (w *c06World) apply(ev string) (enabled bool) {
 			return false
 		}
 		security.GetSessionCache().InvalidateExpired()
+		if c06SrvCache != nil {
+			c06SrvCache.InvalidateExpired()
+		}
 		for _, s := range []*c06Sess{&w.K, &w.L, &w.U} {
 			if s.exists && w.now > s.exp {
 				s.swept = true
@@ -517,9 +540,14 @@ func (w *c06World) stateKey() string {
 	return fmt.Sprintf("K=%s L=%s U=%s cliHasK=%v rec=%v/%v", f(&w.K), f(&w.L), f(&w.U), w.cliHasK, w.replayRec != nil, w.replayNR != nil)
 }
 
-func c06Replay(hist []string, res *vlib.Result) *c06World {
+func c06Replay(hist []string, res *vlib.Result, ownCache bool) *c06World {
 	security.ClearSessionCache()
 	w := &c06World{cliCache: security.NewSessionCache(), cliCacheL: security.NewSessionCache(), cliCacheU: security.NewSessionCache(), res: res, hist: strings.Join(hist, " ")}
+	c06SrvCache = nil
+	if ownCache {
+		c06SrvCache = security.NewSessionCache()
+		w.hist = "servers with a SessionCache of their own: " + w.hist
+	}
 	for _, ev := range hist {
 		if !w.apply(ev) {
 			return nil
@@ -528,7 +556,7 @@ func c06Replay(hist []string, res *vlib.Result) *c06World {
 	return w
 }
 
-func c06BFS(depth int, res *vlib.Result) {
+func c06BFS(depth int, res *vlib.Result, ownCache bool) {
 	type node struct{ hist []string }
 	seen := map[string]bool{}
 	frontier := []node{{nil}}
@@ -539,7 +567,7 @@ func c06BFS(depth int, res *vlib.Result) {
 		var next []node
 		for _, n := range frontier {
 			// probe battery in this state
-			w := c06Replay(n.hist, res)
+			w := c06Replay(n.hist, res, ownCache)
 			if w == nil {
 				continue
 			}
@@ -557,7 +585,7 @@ func c06BFS(depth int, res *vlib.Result) {
 			}
 			for _, ev := range c06Events {
 				h := append(append([]string{}, n.hist...), ev)
-				w2 := c06Replay(h, res)
+				w2 := c06Replay(h, res, ownCache)
 				if w2 == nil {
 					continue
 				}
@@ -583,7 +611,7 @@ func c06BFS(depth int, res *vlib.Result) {
 func C06Plan() *vlib.Plan {
 	p := &vlib.Plan{
 		Property: "C06", Level: "model_checking", Workers: 1,
-		Rule: "E-BFS on the real server resumption path. Events: establish a keyed session (real handshake), establish a key-less session (no common cipher), scripted resumption with the right id+key from another address, legitimate client resumption, advance virtual time by lease/2, lease+60, duration+60, invalidate K / L, sweep expired. A state is the event history replayed on a cleared cache; canonical key = (status and remaining-lifetime bucket of K and L, client still holds K, replay recorded). In EVERY state a battery of scripted requests is fired: {K, L, unknown id} x {wrong key, no key} x {reply requested, not} x {same, different source address}, every single-character alteration of a live id (once), and byte-for-byte replays (whole and truncated at every frame boundary) of a recorded legitimate resumed connection. Oracle = reference map id -> {key?, expiry, invalidated}. traces = states replayed; transitions = events + probes executed.",
+		Rule:   "E-BFS on the real server resumption path. Events: establish a keyed session (real handshake), establish a key-less session (no common cipher), scripted resumption with the right id+key from another address, legitimate client resumption, advance virtual time by lease/2, lease+60, duration+60, invalidate K / L, sweep expired. A state is the event history replayed on a cleared cache; canonical key = (status and remaining-lifetime bucket of K and L, client still holds K, replay recorded). In EVERY state a battery of scripted requests is fired: {K, L, unknown id} x {wrong key, no key} x {reply requested, not} x {same, different source address}, every single-character alteration of a live id (once), and byte-for-byte replays (whole and truncated at every frame boundary) of a recorded legitimate resumed connection. The whole search runs twice: servers on the package-global cache, and servers configured with a SessionCache of their own (sessions are invalidated through the package API, swept in both). Oracle = reference map id -> {key?, expiry, invalidated}. traces = states replayed; transitions = events + probes executed.",
 		Assume: []string{"virtual time = re-storing every cache entry with its expiration moved back (public API), margins of 60 s against real time", "single process, sequential (the server-side cache is process-global)"},
 	}
 	p.Gen = func(tier string, yield func(vlib.Case)) {
@@ -594,7 +622,13 @@ func C06Plan() *vlib.Plan {
 		p.Bounds = map[string]any{"history_depth": D, "events": c06Events}
 		yield(vlib.Case{ID: fmt.Sprintf("bfs/depth=%d", D), Run: func() *vlib.Result {
 			res := &vlib.Result{}
-			c06BFS(D, res)
+			c06BFS(D, res, false)
+			return res
+		}})
+		// the same search over servers configured with a session cache of their own
+		yield(vlib.Case{ID: fmt.Sprintf("bfs/server-own-cache/depth=%d", D), Run: func() *vlib.Result {
+			res := &vlib.Result{}
+			c06BFS(D, res, true)
 			return res
 		}})
 	}
